@@ -145,3 +145,6 @@ Proof.
     + assumption.
     + intros x [-> | Hx]; [|apply Hd; assumption]. intros Hc. apply Hn. apply in_or_app. right. assumption.
 Qed.
+
+Lemma lm_Forall2_length {X Y} (R : X -> Y -> Prop) l1 l2 : Forall2 R l1 l2 -> length l1 = length l2.
+Proof. induction 1; cbn; congruence. Qed.
